@@ -730,6 +730,7 @@ func (e *Engine) Explore(run func(), b Bounds) {
 		x.prefix, x.pos, x.pc, x.vars, x.regions, x.obs = p, 0, nil, nil, nil, nil
 		x.nI, x.nB, x.nN, x.nQ = 0, 0, 0, 0
 		x.divCache = nil
+		e.mapOrderOn = false
 		x.mulOrigin = nil
 		x.pathAsserted = 0
 		e.Steps = 0
